@@ -177,7 +177,8 @@ Lemma derive_some : derive_all CODES COMPLEMENT = Some derived0.
 Proof. vm_compute. reflexivity. Qed.
 Lemma derived_all c : lookupB c derived0 = lookupB c COMPLEMENT_ALL.
 Proof. destruct c; vm_compute; reflexivity. Qed.
-Lemma derived_trans c : lookupN (Byte.to_N c) (derive_trans derived0) = lookupN (Byte.to_N c) COMPLEMENT_TRANS.
+(* as functions of str.translate: entries that map a code point to itself may be present or not *)
+Lemma derived_trans c : trans_with (derive_trans derived0) c = trans1 c.
 Proof. destruct c; vm_compute; reflexivity. Qed.
 Lemma trans_keys_small : forallb (fun kv => N.ltb (fst kv) 256 && N.ltb (snd kv) 256) COMPLEMENT_TRANS = true.
 Proof. vm_compute. reflexivity. Qed.
@@ -186,7 +187,7 @@ Proof. vm_compute. split; reflexivity. Qed.
 
 Lemma derived_tables : exists d, derive_all CODES COMPLEMENT = Some d /\
   (forall c, lookupB c d = lookupB c COMPLEMENT_ALL) /\
-  (forall c, lookupN (Byte.to_N c) (derive_trans d) = lookupN (Byte.to_N c) COMPLEMENT_TRANS) /\
+  (forall c, trans_with (derive_trans d) c = trans1 c) /\
   forallb (fun kv => N.ltb (fst kv) 256 && N.ltb (snd kv) 256) COMPLEMENT_TRANS = true.
 Proof.
   exists derived0. split; [exact derive_some|]. split; [exact derived_all|]. split; [exact derived_trans|exact trans_keys_small].
